@@ -261,7 +261,6 @@ def nest_part(rep, rng, n):
 # ---------------------------------------------------------------------------------------------
 # (b) histories
 CRASHERS = [
-    ("crash:hex-escape", [("c.mac", 'nop\n.ascii "a\\x1"\nnop\n')]),
     ("crash:recursion-eval", [("c.mac", "\n".join(f"a{i} = <a{i+1}> / 1" for i in range(220)) + "\na220 = 2\n.word a0\n")]),
     ("crash:recursion-parse", [("c.mac", ".word " + "(" * 400 + "1" + ")" * 400 + "\n")]),
 ]
